@@ -97,6 +97,25 @@ Theorem C02_merged_cues_are_runs : forall caps, nodes_nonempty caps = true ->
 Proof. exact merged_cues_are_runs. Qed.
 Print Assumptions C02_merged_cues_are_runs.
 
+(* cue structure of the per-caption writers, on the models: DFXP one <p> per caption, MicroDVD one line per
+   caption, WebVTT one cue per layout group (1 + the number of layout changes between text nodes), every cue
+   with its caption's times - each satisfying the document oracle ok_cues *)
+Theorem C02_dfxp_one_p_per_caption : forall caps, caps_time_ok caps = true ->
+  length (dfxp_tokens caps) = length caps /\ ok_cues WDfxp caps [] (dfxp_tokens caps) = true.
+Proof. exact dfxp_one_p_per_caption. Qed.
+Print Assumptions C02_dfxp_one_p_per_caption.
+Theorem C02_mdvd_one_line_per_caption : forall caps, caps_time_ok caps = true ->
+  length (mdvd_tokens caps) = length caps /\ ok_cues WMdvd caps [] (mdvd_tokens caps) = true.
+Proof. exact mdvd_one_line_per_caption. Qed.
+Print Assumptions C02_mdvd_one_line_per_caption.
+Theorem C02_vtt_group_count : forall nodes, vtt_group_count nodes = spec_groups nodes.
+Proof. exact vtt_group_count_spec. Qed.
+Print Assumptions C02_vtt_group_count.
+Theorem C02_vtt_cues_same_times : forall caps : list (caption * list vnode), caps_time_ok (map fst caps) = true ->
+  ok_cues WVtt (map fst caps) (map (fun cn => spec_groups (snd cn)) caps) (vtt_tokens caps) = true.
+Proof. exact vtt_cues_same_times. Qed.
+Print Assumptions C02_vtt_cues_same_times.
+
 (* on the SCC lattice (thirds of a microsecond) both admissible readings of "truncated" coincide *)
 Theorem C02_lattice_no_ms_crossing : forall k c, c = 100100 \/ c = 100000 ->
   rhe ((k * c) # 3) / 1000 = floor_ms ((k * c) # 3).
@@ -129,3 +148,7 @@ Example C02_ex_srt_runs :
   let c s e n := mkCap (inject_Z s) (inject_Z e) [n] in
   map span (srt_merge [c 0 1 1; c 2 3 2; c 2 3 3; c 2 4 4]) = [span (c 0 1 1); span (c 2 3 3); span (c 2 4 4)].
 Proof. vm_compute. reflexivity. Qed.
+Example C02_ex_vtt_groups :
+  vtt_group_count [VText (Some 1); VBreak; VText (Some 1); VBreak; VText (Some 2); VText None; VText (Some 3)] = 3%nat
+  /\ vtt_group_count [VBreak; VText None; VStyle true; VText (Some 1)] = 1%nat.
+Proof. vm_compute. split; reflexivity. Qed.
